@@ -225,6 +225,20 @@ Theorem sample_sor_in_range : forall m s a u1 u2,
 Proof. exact sample_sor_in_range_lemma. Qed.
 Print Assumptions sample_sor_in_range.
 
+(* factored model (CooperativeModel::sampleSR / sampleSRs): every next-state feature is the dense
+   sampler on the row the DDN selects, hence in range; sampleSR's reward is the sum of the per-basis
+   table entries sampleSRs reports *)
+Theorem coop_next_in_range : forall rows us, Forall (fun r : vec => r <> []) rows -> length us = length rows ->
+  Forall2 (fun r i => (i < length r)%nat) rows (coop_next rows us).
+Proof. exact coop_next_in_range_lemma. Qed.
+Print Assumptions coop_next_in_range.
+
+Theorem coop_reward_sum : forall Sz Az bases s a,
+  coop_reward Sz Az bases s a == qsum (coop_rewards Sz Az bases s a) /\
+  length (coop_rewards Sz Az bases s a) = length bases.
+Proof. exact coop_reward_sum_lemma. Qed.
+Print Assumptions coop_reward_sum.
+
 (* hypotheses are satisfiable on non-trivial inputs *)
 Example ex_dense_nonvacuous :
   is_dist [1 # 4; 0; 1 # 2; 1 # 4] /\ sample_dense [1 # 4; 0; 1 # 2; 1 # 4] (1 # 4) = 2%nat /\
@@ -271,3 +285,9 @@ Example ex_alias_slack_nonvacuous :
   nonneg p /\ - (1 / qn (length p)) < qsum p - 1 /\
   (let '(prob, alias) := vose_fix p in alias_table_slack_ok p prob alias) = true.
 Proof. split; [repeat constructor; discriminate| split; vm_compute; reflexivity]. Qed.
+
+(* S = (2,3), A = (3,2): the joint action (1,1) of agents 0,1 is column 1 + 3*1 = 4 (action sizes), and the
+   state (1,2) is row 1 + 2*2 = 5 *)
+Example ex_coop_index : to_index_partial [0; 1]%nat [3; 2]%nat [1; 1]%nat = 4%nat /\
+                        to_index_partial [0; 1]%nat [2; 3]%nat [1; 2]%nat = 5%nat.
+Proof. split; reflexivity. Qed.
